@@ -169,7 +169,16 @@ func (r *simRC) answerOpt(c hrpc.Call, failOnServerError bool) (hrpc.RPCResult, 
 	switch x := c.(type) {
 	case *hrpc.Scan:
 		req := x.ToProto().(*pb.ScanRequest)
-		if string(req.GetRegion().GetValue()) == "hbase:meta,,1" {
+		if string(req.GetRegion().GetValue()) == "hbase:meta,,1" && !req.GetScan().GetReversed() {
+			// the forward scan of CacheRegions: all meta rows of the table at once
+			var rs []*sim.Region
+			res, rs = w.cl.ExecMetaScanAll(r.addr, req.GetScan().GetStartRow(), req.GetScan().GetStopRow())
+			sr := &pb.ScanResponse{MoreResults: proto.Bool(false), MoreResultsInRegion: proto.Bool(false)}
+			for _, g := range rs {
+				sr.Results = append(sr.Results, &pb.Result{Cell: kvToCells(sim.MetaCells(g))})
+			}
+			msg = sr
+		} else if string(req.GetRegion().GetValue()) == "hbase:meta,,1" {
 			var found *sim.Region
 			res, found = w.cl.ExecMetaLookup(r.addr, req.GetScan().GetStartRow(), req.GetScan().GetStopRow())
 			sr := &pb.ScanResponse{MoreResults: proto.Bool(false), MoreResultsInRegion: proto.Bool(false)}
